@@ -96,7 +96,26 @@ Proof.
   split; [apply dump_hex_of_read_all; exact H|]. split; [|apply dump_text_of_read_all; exact H].
   rewrite (dump_hex_of_read_all decompress _ fuel _ _ H), filter_keep_all. reflexivity.
 Qed.
+(* the file determines the content: two writer sessions - whatever their options, foreign
+   prefixes and inputs - that end in the same bytes were given the same accepted entries.
+   (No two different tables share a file; a consequence of the round trip, stated because
+   it is what "returns exactly the entries written" means read from the file's side.) *)
+Theorem T01_file_determines_entries : forall o o' prefix prefix' ops ops' w w' rs rs',
+  1 <= wo_interval o -> 1 <= wo_interval o' ->
+  writer_session compress_default compress_level o (len prefix) ops = Ok (w, rs) ->
+  writer_session compress_default compress_level o' (len prefix') ops' = Ok (w', rs') ->
+  fits o prefix ops w -> fits o' prefix' ops' w' ->
+  prefix ++ writer_bytes w = prefix' ++ writer_bytes w' ->
+  kept ops rs = kept ops' rs'.
+Proof.
+  intros o o' prefix prefix' ops ops' w w' rs rs' Hi Hi' Hs Hs' Hf Hf' E.
+  set (fuel := S (Nat.max (length (kept ops rs)) (length (kept ops' rs')))).
+  pose proof (T01_any_input o prefix ops w rs Hi Hs Hf fuel ltac:(unfold fuel; lia)) as R.
+  pose proof (T01_any_input o' prefix' ops' w' rs' Hi' Hs' Hf' fuel ltac:(unfold fuel; lia)) as R'.
+  rewrite E in R. congruence.
+Qed.
 End C01.
+Print Assumptions T01_file_determines_entries.
 Print Assumptions T01_any_input.
 Print Assumptions T01_roundtrip.
 Print Assumptions T01_written_table_ok.
